@@ -50,7 +50,7 @@ def power_basis(coeffs):
     return out
 
 
-COORD_FAMILIES = ["int", "grid", "dyadic", "float", "big", "collinear", "coincident", "arch", "elevated", "retracted", "teardrop", "axischord", "tiny", "evenspaced", "offset", "axishandles", "scurve"]
+COORD_FAMILIES = ["int", "grid", "dyadic", "float", "big", "collinear", "coincident", "arch", "elevated", "retracted", "teardrop", "axischord", "tiny", "evenspaced", "offset", "axishandles", "scurve", "nearint"]
 
 
 def rand_coord(rng, fam):
@@ -142,6 +142,14 @@ def rand_seg_pts(rng, order, fam):
         x3, y3 = pts[3]
         dx, dy = pts[1][0] - x0, pts[1][1] - y0
         pts = [pts[0], (x0 + dx, y0 + dy), (x3 - dx, y3 - dy), pts[3]]
+    elif fam == "nearint":
+        # small whole-number coordinates, one of them a few 1e-10 off: values that are NOT whole numbers although they look it when printed
+        pts = [(float(rng.randint(-12, 12)), float(rng.randint(-12, 12))) for _ in range(order)]
+        if len(set(pts)) == 1:
+            pts[0] = (pts[0][0] + 3.0, pts[0][1])
+        j = rng.randrange(order)
+        d = rng.choice([-1, 1]) * rng.choice([2e-10, 4e-10, 7e-10, 9e-10])
+        pts[j] = (pts[j][0] + d, pts[j][1]) if rng.random() < 0.5 else (pts[j][0], pts[j][1] + d)
     elif fam == "axischord":
         # chord exactly horizontal or vertical, pointing either way
         x0, y0 = pts[0]
